@@ -808,6 +808,97 @@ class FieldString(Unit):
         return dict(confirmed=False, call='Packet.field_string', observed='')
 
 
+class JoinGameModes(Unit):
+    """JoinGamePacket keeps ONE piece of information - (pure game mode, hardcore) - in three settable views (game_mode,
+    pure_game_mode, is_hardcore) and two wire layouts (hardcore as bit 3 of the game-mode byte before protocol 738, as a
+    field of its own from 738).  Whatever ORDER the views are set in, under every supported version: the views read back
+    (m, h), and the game-mode byte that write_fields sends is m | 8*h before 738 and m from 738.  (Seeded change C07-r11:
+    pure_game_mode set AFTER is_hardcore drops the hardcore bit.)"""
+    prop = 'C05'
+    name = 'C05.JoinGame.mode-views'
+    functions = tuple('minecraft.networking.packets.clientbound.play.join_game_and_respawn_packets.JoinGamePacket.' + n
+                      for n in ('game_mode', 'is_hardcore', 'pure_game_mode'))
+    # every order sets BOTH views at the end (a view set twice, or the combined byte set first, gets another value first)
+    ORDERS = (('hardcore', 'pure'), ('pure', 'hardcore'), ('combined',), ('combined', 'hardcore', 'pure'),
+              ('combined', 'pure', 'hardcore'), ('hardcore', 'pure', 'hardcore'), ('pure', 'hardcore', 'pure'))
+
+    def setup(self, I):
+        install_version_contracts(I)
+
+    def run(self, I):
+        E = I.E
+        ctx, i = sym_context(I, 'supported')
+        m = E.new_int('mode', 0, 7)
+        h = bool(E.fork(2, 'hardcore'))
+        order = self.ORDERS[E.fork(len(self.ORDERS), 'order')]
+        other_m = E.new_int('earlier-mode', 0, 7)
+        pkt = JoinGamePacket()
+        pkt.context = ctx
+        for k, step in enumerate(order):
+            final = k == max(j for j, x in enumerate(order) if x == step)
+            if step == 'hardcore':
+                I.setattr_(pkt, 'is_hardcore', h if final else (not h))
+            elif step == 'pure':
+                I.setattr_(pkt, 'pure_game_mode', m if final else other_m)
+            else:
+                I.setattr_(pkt, 'game_mode', (m + 8 if h else m) if order == ('combined',) else (other_m + 8 if not h else other_m))
+        later738 = I.truth(i >= I_[738])
+        try:
+            gm = I.getattr_(pkt, 'game_mode')
+            pure = I.getattr_(pkt, 'pure_game_mode')
+            hard = I.getattr_(pkt, 'is_hardcore')
+        except PyRaise as e:
+            if order == ('combined',) and later738:
+                return None          # from 738 is_hardcore is a field of its own: setting game_mode alone does not define it
+            E.check('modes.readable', False, note='order %r: %r' % (order, e.exc))
+            return None
+        if order == ('combined',):
+            if later738:
+                return None
+            E.check('modes.combined', And(I.equals(pure, m), bool(hard) == h if isinstance(hard, bool) else I.equals(hard, h)))
+            return None
+        E.check('modes.pure-reads-back', I.equals(pure, m), note='order %r' % (order,))
+        E.check('modes.hardcore-reads-back', (hard is h) if isinstance(hard, bool) else I.equals(hard, h), note='order %r' % (order,))
+        E.check('modes.wire-byte', I.equals(gm, m) if later738 else I.equals(gm, m + 8 if h else m),
+                note='order %r: game_mode on the wire = mode%s' % (order, '' if later738 else ' | 8 * hardcore'))
+        return None
+
+    def replay(self, model, label):
+        return replay_join_modes()
+
+    def bounded(self, rng, tier):
+        rp = replay_join_modes()
+        return dict(name='C05.JoinGame.mode-views.concrete', evaluations=rp['n'], exhaustive_for_bound=True,
+                    bound='modes 0..7 x hardcore x 6 setter orders x protocols {47, 498, 578, 736, 751, 757}; written bytes decoded',
+                    failures=[dict(call=rp['call'], observed=rp['observed'], witness='join-game-modes')] if rp['confirmed'] else [])
+
+
+def replay_join_modes():
+    import itertools
+    n = 0
+    for proto, m, h in itertools.product((47, 498, 578, 736, 751, 757), range(8), (False, True)):
+        ctx = ConnectionContext(protocol_version=proto)
+        for order in JoinGameModes.ORDERS:
+            if order == ('combined',):
+                continue
+            n += 1
+            pkt = JoinGamePacket(context=ctx)
+            for k, step in enumerate(order):
+                final = k == max(j for j, x in enumerate(order) if x == step)
+                if step == 'hardcore':
+                    pkt.is_hardcore = h if final else (not h)
+                elif step == 'pure':
+                    pkt.pure_game_mode = m if final else (m + 1) % 8
+                else:
+                    pkt.game_mode = ((m + 3) % 8) | (0 if h else 8)
+            want = m if ctx.protocol_later_eq(738) else (m | 8 if h else m)
+            if pkt.pure_game_mode != m or bool(pkt.is_hardcore) != h or pkt.game_mode != want:
+                return dict(confirmed=True, n=n, call='JoinGamePacket at protocol %d, views set in the order %r to mode %d, hardcore %r'
+                            % (proto, order, m, h), observed='pure_game_mode = %r, is_hardcore = %r, game_mode (the wire byte) = %r, '
+                            'expected %d / %r / %d' % (pkt.pure_game_mode, pkt.is_hardcore, pkt.game_mode, m, h, want))
+    return dict(confirmed=False, n=n, call='JoinGame mode views', observed='consistent')
+
+
 def _own_units(tier):
     us = []
     for t in all_classes():
@@ -826,7 +917,7 @@ def _own_units(tier):
         # are observed through - are claimed here too, so a field type that stops round-tripping fails this property as well
         u.prop, u.name = 'C05', 'C05.types.' + u.name.split('.', 1)[1]
         ts.append(u)
-    return us + [GenericDefinition(), FieldString(), Ids()] + c05_lists.units(tier) + ts
+    return us + [GenericDefinition(), FieldString(), Ids(), JoinGameModes()] + c05_lists.units(tier) + ts
 
 
 def units(tier):
